@@ -387,6 +387,13 @@ func (m *Phase) Event(c *vnet.Cluster, e *vnet.Event) {
 				return
 			}
 			m.inc("commit-sends-amev")
+			if !s.preCommitOwn && n.Restarts > 0 && d.MyIndex >= 0 {
+				// a restarted node: the pre-commit it broadcast before the restart came back from its peers
+				if q := payloadOf(d.PreCommitPayloads[d.MyIndex]); q != nil && !q.Forged && q.Hgt == d.BlockIndex {
+					s.preCommitOwn = true
+					m.inc("own-precommits-readopted-after-restart")
+				}
+			}
 			if !s.preCommitOwn {
 				m.fail(c, "commit-before-own-precommit", "n%d sent its commit at (%d,%d) without having sent a pre-commit", n.ID, d.BlockIndex, d.ViewNumber)
 			}
